@@ -87,6 +87,11 @@ inline H3Index cellAt(LatLng g, int res) {
     return h;
 }
 
+// log-uniform in [lo, hi]: features of the grid are scale-free, so distances from the special points (face centres, icosahedron
+// edges and vertices, pentagons) are drawn over all scales, from a fraction of a cell to a fraction of a face — a constant that is
+// slightly off (a radius, a threshold) shows up at a distance that has nothing to do with the cell size
+inline double logU(double lo, double hi) { return lo * std::pow(hi / lo, runit()); }
+
 // ---- arms
 inline H3Index cellUniformIndex(int res) {
     int d[16] = {0};
@@ -123,6 +128,12 @@ inline H3Index cellPentDisk(int res, int kmax) {
     // polar pentagons (base cells 4, 117) get extra weight: their rotation rule is special
     int which = rpick({3, 1}) == 0 ? ri(0, 11) : (ri(0, 1) ? 0 : 11);
     H3Index p = pentagonAt(res, which);
+    if (rpick({4, 1})) {  // any scale from the pentagon (distortion persists along the five icosahedron edges that meet there)
+        LatLng c;
+        cellToLatLng(p, &c);
+        H3Index h = cellAt(offset(c, logU(cellWidth(res), 0.35), runit() * 2 * PI), res);
+        return h ? h : p;
+    }
     int k = ri(0, kmax);
     if (k == 0) return p;
     int64_t n;
@@ -135,19 +146,35 @@ inline H3Index cellPentDisk(int res, int kmax) {
     }
     return p;
 }
-inline LatLng pointFaceEdge(int res) {  // point on one of the 30 icosahedron edges, offset by 0..3 cell widths
+inline LatLng pointFaceEdge(int res) {  // point on one of the 30 icosahedron edges, offset by 0..3 cell widths or by a distance of any scale
     const Ico &I = ico();
     int e = ri(0, 29);
     V3 a = toV(I.vert[I.edges[e][0]].lat, I.vert[I.edges[e][0]].lng), b = toV(I.vert[I.edges[e][1]].lat, I.vert[I.edges[e][1]].lng);
-    double t = rpick({3, 1}) == 0 ? runit() : (ri(0, 1) ? runit() * 0.02 : 1 - runit() * 0.02);  // along the edge; sometimes near a vertex
+    double t;
+    switch (rpick({3, 1, 2, 1})) {
+        case 0: t = runit(); break;                                                  // anywhere along the edge
+        case 1: t = ri(0, 1) ? runit() * 0.02 : 1 - runit() * 0.02; break;          // near a vertex
+        case 2: t = 0.5 + (ri(0, 1) ? 1 : -1) * logU(1e-9, 0.5); break;             // any scale from the edge midpoint
+        default: { double d = logU(1e-9, 0.5); t = ri(0, 1) ? d : 1 - d; break; }  // any scale from a vertex
+    }
     LatLng p = toLL(lerpN(a, b, t));
-    double off = rpick({1, 2}) == 0 ? 0.0 : runit() * 3.0 * cellWidth(res);
+    double off;
+    switch (rpick({1, 2, 2})) {
+        case 0: off = 0.0; break;
+        case 1: off = runit() * 3.0 * cellWidth(res); break;
+        default: off = logU(0.1 * cellWidth(res), 0.35); break;
+    }
     return offset(p, off, runit() * 2 * PI);
 }
-inline LatLng pointFaceCentre(int res) {  // one of the 20 icosahedron face centres, offset by 0..4 cell widths
+inline LatLng pointFaceCentre(int res) {  // one of the 20 icosahedron face centres, offset by 0..4 cell widths or by a distance of any scale
     const Ico &I = ico();
     LatLng p = I.faceCentre[ri(0, 19)];
-    double off = rpick({1, 3}) == 0 ? 0.0 : runit() * 4.0 * cellWidth(res);
+    double off;
+    switch (rpick({1, 3, 2})) {
+        case 0: off = 0.0; break;
+        case 1: off = runit() * 4.0 * cellWidth(res); break;
+        default: off = logU(0.1 * cellWidth(res), 0.6); break;
+    }
     return offset(p, off, runit() * 2 * PI);
 }
 inline LatLng pointUniform() { return {std::asin(2 * runit() - 1), (2 * runit() - 1) * PI}; }
